@@ -33,6 +33,8 @@ def c16_registry():
             w = v.fields.get('whole')
             if w is not None and is_v(w):
                 return w
+            if isinstance(w, list) and len(w) == 1 and isinstance(w[0], str) and w[0] == 'NaN':
+                return SENTINEL                 # the data set was created from HDF5None: reading it back gives np.array([nan])
             return uf('dataset_as_array', z3.StringVal(v.fields['name']))
         if is_v(v):
             # np.array(x) of an array is an equal array (a copy): at this level tensors are
@@ -202,7 +204,7 @@ def exp_registry():
     return R
 
 
-def scen_export_import(kind, init_none=True, with_dt=True):
+def scen_export_import(kind, init_none=True, with_dt=True, transforms='both'):
     def scen(ip, repo):
         nm, nc = Int('n_mpo'), Int('n_cap')
         ip.assume(z3.And(nm >= 0, nc >= 0))
@@ -214,15 +216,16 @@ def scen_export_import(kind, init_none=True, with_dt=True):
         init = None if init_none else Vc('initial_tensor')
         _facts(ip, [] if init_none else [init])
         dt = Real('dt_pt') if with_dt else None
-        tin, tout = Vc('Tin'), Vc('Tout')
-        _facts(ip, [tin, tout])
+        tin = Vc('Tin') if transforms in ('both', 'in-only') else None
+        tout = Vc('Tout') if transforms in ('both', 'out-only') else None
+        _facts(ip, [x for x in (tin, tout) if x is not None])
         S = mkobj(repo, 'process_tensor.SimpleProcessTensor', _hs_dim=hs, _dt=dt, _transform_in=tin, _transform_out=tout,
                   _name='the name', _description='the description', _initial_tensor=init,
                   _mpo_tensors=Seq(nm, lambda i: Mf(i), 'list'), _cap_tensors=Seq(nc, lambda i: Cf(i), 'list'))
         ip.ghost['c16'] = {'n_mpo': nm, 'n_cap': nc}
         ip.ghost_file = 'f.h5'
         return {'S': S, 'kind': kind, 'nm': nm, 'nc': nc, 'hs': hs, 'dt': dt, 'tin': tin, 'tout': tout, 'init': init,
-                'inputs': {'n_mpo': nm, 'n_cap': nc, 'import_type': kind, 'initial_tensor_is_None': init_none}}
+                'inputs': {'n_mpo': nm, 'n_cap': nc, 'import_type': kind, 'initial_tensor_is_None': init_none, 'transforms': transforms}}
     return scen
 
 
@@ -249,8 +252,14 @@ def post_export_import(ip, ctx, out):
     ip.prove(tag + '/dt', veq(dt, ctx['dt']) if ctx['dt'] is not None else z3.BoolVal(dt is None))
     ip.prove(tag + '/name-description', z3.BoolVal(ip.getattr(P, 'name') == 'the name' and ip.getattr(P, 'description') == 'the description'))
     tin, tout = ip.getattr(P, 'transform_in'), ip.getattr(P, 'transform_out')
-    ip.prove(tag + '/transforms', z3.And(z3.Or(tin == ctx['tin'], tin == uf('np_array', ctx['tin'])),
-                                         z3.Or(tout == ctx['tout'], tout == uf('np_array', ctx['tout']))))
+    def same_transform(got, want):
+        if want is None:
+            return z3.BoolVal(got is None) if not is_z3(got) else got == NONE
+        if got is None:
+            return z3.BoolVal(False)
+        return z3.Or(got == want, got == uf('np_array', want))
+    ip.prove(tag + '/transforms', z3.And(same_transform(tin, ctx['tin']), same_transform(tout, ctx['tout'])),
+             {'transform_in stored': repr(tin), 'transform_out stored': repr(tout)})
     init = g('get_initial_tensor')
     if ctx['init'] is None:
         ip.prove(tag + '/initial', z3.BoolVal(init is None) if not is_z3(init) else init == NONE)
@@ -328,6 +337,10 @@ def targets(tier='quick'):
                 T.append(Target('export-import[%s,init=%s,dt=%s]' % (kind, 'None' if init_none else 'tensor', with_dt),
                                 'process_tensor.import_process_tensor', scen_export_import(kind, init_none, with_dt),
                                 post_export_import, RE, PROP, invoke=invoke_export_import, replay=rp('roundtrip'), max_paths=3000))
+        for tr in ('none', 'in-only', 'out-only'):
+            T.append(Target('export-import[%s,transforms=%s]' % (kind, tr), 'process_tensor.import_process_tensor',
+                            scen_export_import(kind, True, True, tr), post_export_import, RE, PROP, invoke=invoke_export_import,
+                            replay=rp('roundtrip'), max_paths=3000))
     from . import wire
     T += wire.targets_file(PROP)           # file-backed accessor and caps = in-memory ones (tnnorm)
     # metadata assigned AFTER the file was created must reach the file under its own key (what a later import reads)
